@@ -6,6 +6,7 @@ import (
 	"io"
 	"math/rand"
 	"reflect"
+	"runtime"
 	"sort"
 	"strings"
 	"time"
@@ -43,7 +44,9 @@ func (s *c04State) guarded(id, target, reader, mclass string, inLen int, input f
 	before := h.AllocBytes()
 	s.watch.Begin(id)
 	t0 := time.Now()
+	cpu0 := h.ThreadCPU()
 	pi := h.Guard(fn)
+	cpu := h.ThreadCPU() - cpu0
 	el := time.Since(t0)
 	s.watch.End()
 	alloc := h.AllocBytes() - before
@@ -54,13 +57,30 @@ func (s *c04State) guarded(id, target, reader, mclass string, inLen int, input f
 		return
 	}
 	limit := uint64(1<<20 + 256*inLen)
+	if alloc > limit && pi == nil {
+		// the allocation counter is process-wide: confirm on a quiet repetition before deciding
+		for rep := 0; rep < 2 && alloc > limit; rep++ {
+			runtime.GC()
+			b0 := h.AllocBytes()
+			s.watch.Begin(id)
+			_ = h.Guard(fn)
+			s.watch.End()
+			if a := h.AllocBytes() - b0; a < alloc {
+				alloc = a
+			}
+		}
+	}
 	if alloc > limit {
 		c.Violation("C04:alloc:"+target, id, fmt.Sprintf("%s (%s reader) allocated %d bytes for a %d-byte input (limit %d)", target, reader, alloc, inLen, limit),
 			map[string]any{"target": target, "reader": reader, "mutation": mclass, "input_hex": input(), "allocated": alloc})
 	}
-	if el > 2*time.Second {
-		c.Violation("C04:slow:"+target, id, fmt.Sprintf("%s (%s reader) took %v for a %d-byte input", target, reader, el, inLen),
+	// "slow" is decided on the CPU time of this thread, never on wall time: on a busy machine a
+	// microsecond call can be descheduled for seconds (that only counts as an observation)
+	if cpu > time.Second {
+		c.Violation("C04:slow:"+target, id, fmt.Sprintf("%s (%s reader) burnt %v of CPU (wall %v) for a %d-byte input", target, reader, cpu, el, inLen),
 			map[string]any{"target": target, "reader": reader, "mutation": mclass, "input_hex": input()})
+	} else if el > 2*time.Second {
+		c.Count("calls_slow_in_wall_time_only", 1)
 	}
 }
 
@@ -222,6 +242,7 @@ func c04Targets(c *h.Ctx, r *rand.Rand) []*c04Target {
 }
 
 func c04Run(c *h.Ctx) {
+	runtime.LockOSThread() // per-call CPU time is read from this thread
 	st := &c04State{c: c, watch: h.NewCallWatch(20 * time.Second)}
 	// seeds are a function of the seed only (not of the batch) so that case ids are stable
 	seedRng := rand.New(rand.NewSource(c.Seed*7919 + 17))
